@@ -247,7 +247,7 @@ func Run(r *ev.Run) {
 	r.Bounds["single_command_cases"] = nSingles
 	r.Bounds["batch_cases"] = nBatches
 	r.Bounds["keys"] = "seam.Key(0) all-zero, seam.Key(1), seam.Key(2)"
-	r.Bounds["string_domain"] = `"", "a", "é", C:\x y (or a typical name), 300 x "A"; dir paths also C:, C:\x y\, \\srv\share, \\srv\share\d, .`
+	r.Bounds["string_domain"] = `"", "a", "é", C:\x y (or a typical name), 300 x "A", "日本", "a"+U+1F600, U+1F600 U+1F601 U+1F602 ".txt"; dir paths also C:, C:\x y\, \\srv\share, \\srv\share\d, .`
 	r.Bounds["integer_domain"] = "0, 1, 2^31-1, 2^31, 2^32-1 (decimal, or hexadecimal for ids/handles/LUIDs/offsets)"
 	r.Bounds["blob_lengths"] = "0, 1, 17"
 	r.Bounds["task_ids"] = len(taskIDs.Dom)
